@@ -149,8 +149,10 @@ def evaluate(case):
                 outfile = None
                 if case["out"] == "file":
                     outfile = os.path.join(sc.root, "report.out")
-                    if os.path.exists(outfile):
-                        os.unlink(outfile)
+                    # the file exists already and is longer than any report of this tree (an older report, here: the
+                    # previous format's output padded to 64 KiB) - the new report replaces it completely
+                    with open(outfile, "ab") as f:
+                        f.write(b"# stale line of an earlier report\n" * 2000)
                     args += ["-o", outfile]
                 rc, out, err, to = C.fclones(args, sc)
                 if to or rc != 0:
